@@ -46,6 +46,9 @@ type protoCase struct {
 
 func parseProtoVec(c *Ctx, prop string, raw stdjson.RawMessage) (protoVec, bool) {
 	var v protoVec
+	if varintVector(c, prop, raw) {
+		return v, false
+	}
 	if err := stdjson.Unmarshal(raw, &v); err != nil {
 		c.SpecError(prop, "bad vector: "+err.Error(), string(raw))
 		return v, false
@@ -796,6 +799,9 @@ func cmEqual(a, b reflect.Value) bool {
 }
 
 func c03Replay(c *Ctx, raw stdjson.RawMessage) {
+	if varintVector(c, "C03", raw) {
+		return
+	}
 	var k protoCase
 	if stdjson.Unmarshal(raw, &k) == nil {
 		if strings.HasPrefix(k.What, "composite map") || strings.HasPrefix(k.What, "generated-code types") || strings.HasPrefix(k.What, "recursive types") || strings.HasPrefix(k.What, "integer lattice") {
@@ -1037,6 +1043,9 @@ func c12Vector(c *Ctx, raw stdjson.RawMessage) {
 }
 
 func c12Replay(c *Ctx, raw stdjson.RawMessage) {
+	if varintVector(c, "C12", raw) {
+		return
+	}
 	var k protoCase
 	if stdjson.Unmarshal(raw, &k) == nil && k.What == "hidden" {
 		canon, _ := hex.DecodeString(k.Bytes)
@@ -1553,6 +1562,9 @@ func c07TopLevel(c *Ctx, k protoCase, t reflect.Type) {
 }
 
 func c07Replay(c *Ctx, raw stdjson.RawMessage) {
+	if varintVector(c, "C07", raw) {
+		return
+	}
 	var k protoCase
 	if stdjson.Unmarshal(raw, &k) == nil {
 		if strings.HasPrefix(k.What, "top-level ") && len(k.Shape) == 1 {
